@@ -300,7 +300,7 @@ def is_open(st, fid):
 
 
 def cfg_bits(st):
-    """Pixels/Corr.v cfg_of_bits: bit0 fx_cmyk, bit1 fx_alpha, bit2 fx_matte, bit3 fx_bitmap, bit4 fx_save.
+    """Pixels/Corr.v cfg_of_bits: bit0 fx_cmyk, bit1 fx_alpha, bit2 fx_matte, bit3 fx_bitmap, bit4 fx_save, bit5 fx_deep.
     A correction counts as present unless its finding is listed as open."""
     b = 0
     if not is_open(st, "F-C07-1"):
@@ -313,6 +313,8 @@ def cfg_bits(st):
         b |= 8
     if not any(is_open(st, k) for k in ("F-C17-1", "F-C17-2", "F-C17-3", "F-C17-4")):
         b |= 16
+    if not is_open(st, "F-C07-7"):
+        b |= 32
     return b
 
 
